@@ -1468,6 +1468,57 @@ def run_nosearch_stop(_):
         s.kill()
 
 
+STOP_HISTORIES = {
+    "stop repeated after a stopped search": ["go infinite", "<sleep 0.1>", "stop", "<bestmove>", "stop"],
+    "stop twice more after a stopped search": ["go infinite", "<sleep 0.05>", "stop", "<bestmove>", "stop", "stop"],
+    "isready then stop before any search": ["isready", "stop"],
+    "stop twice before any search": ["stop", "stop"],
+    "late stop after a search that ended by itself": ["go depth 2", "<bestmove>", "stop"],
+    "two late stops after a search that ended by itself": ["go depth 2", "<bestmove>", "stop", "stop"],
+    "late stops after a movetime search": ["go movetime 50", "<bestmove>", "stop", "stop", "stop"],
+    "stop, isready, stop after a stopped search": ["go infinite", "stop", "<bestmove>", "stop", "isready", "stop"],
+    "late stop after a search of a mated root": ["position 7k/6Q1/6K1/8/8/8/8/8 b - - 0 1", "go infinite", "<sleep 0.1>", "stop", "stop"],
+}
+
+
+def run_stop_history(item):
+    """a fixed history of stop requests around finished / stopped / absent searches, then: isready answered, a
+    complete `go depth 3`, and a `go infinite` that runs until it is stopped"""
+    name, fen = item
+    s = Session()
+    obs = {}
+    try:
+        s.send(f"position {fen}")
+        for l in STOP_HISTORIES[name]:
+            if l == "<bestmove>":
+                wait_bestmove(s, 20.0)
+            elif l.startswith("<sleep "):
+                time.sleep(float(l[7:-1]))
+            elif l == "isready":
+                s.send(l)
+                s.read_until(lambda x: x == "readyok", 3.0)
+            else:
+                s.send(l)
+        s.send("isready")
+        g, st = s.read_until(lambda x: x == "readyok", 3.0)
+        obs["answered"] = st == "match"
+        if st == "match":
+            s.drain(0.02)
+            a, st2 = probe(s, fen, 3)
+            obs["analysis"] = a
+            s.send("go infinite")
+            g8, st8 = wait_bestmove(s, 0.4)
+            obs["infinite_ended_by_itself"] = st8 == "match"
+            if st8 != "match":
+                s.send("stop")
+                g9, st9 = wait_bestmove(s, 10.0)
+                obs["infinite_stopped"] = st9 == "match"
+        obs["crash"] = crash_line(s)
+        return obs
+    finally:
+        s.kill()
+
+
 def check_C12(ctx):
     fens = [START_FEN, KIWI_FEN, "8/2p5/3p4/KP5r/1R3p1k/8/4P1P1/8 w - - 0 1", "4k3/8/8/8/8/8/4P3/4K3 w - - 0 1"]
     phases = ["entry:0:0", "started:0:0", "rootmove:1:0", "rootmove:2:1", "rootmove:3:0", "iter:1:0", "iter:2:0", "prebest:-1:0", "postbest:-1:0"]
@@ -1550,6 +1601,28 @@ def check_C12(ctx):
             ctx.violation(key, {"kind": "schedule", "lines": lines, "what": "; ".join(problems), "observed": obs, "fen": fen})
         if len(ctx.samples) < 4:
             ctx.sample({"phase": ph, "cmd": cn, "observed": obs})
+    # fixed stop histories (repeated / late / early stops), each followed by complete searches
+    sh_items = [(nm, f) for nm in STOP_HISTORIES for f in (START_FEN, KIWI_FEN)]
+    for (nm, f), obs in zip(sh_items, parallel_map(run_stop_history, sh_items, workers=6)):
+        if not isinstance(obs, dict):
+            raise RuntimeError(f"stop history error {obs}")
+        ctx.case(f"stop-history|{nm}|{f}")
+        ctx.bump("stop_history")
+        lines = [f"position {f}"] + STOP_HISTORIES[nm] + ["isready", f"position {f}", "go depth 3", "<wait for bestmove>", "go infinite", "<sleep 0.4s>", "stop", "<wait for bestmove>"]
+        probs = []
+        if not obs.get("answered"):
+            probs.append("isready not answered after the history (command thread blocked or process dead): " + obs.get("crash", ""))
+        else:
+            want = fresh.get(f)
+            got_a = obs.get("analysis")
+            if want is not None and [list(map(_jl, x)) for x in (got_a or [])] != [list(map(_jl, x)) for x in want]:
+                probs.append(f"the `go depth 3` after the history was not served normally: {summ(got_a)} vs {summ(want)} in a fresh process")
+            if obs.get("infinite_ended_by_itself") and f not in self_ending:
+                probs.append("a `go infinite` after the history printed bestmove although no stop was sent for it")
+            if obs.get("infinite_stopped") is False:
+                probs.append("the `go infinite` after the history did not end on stop")
+        if probs:
+            ctx.violation(f"stop-history:{nm}:{f}", {"kind": "history", "lines": lines, "what": f"history `{nm}`: " + "; ".join(probs), "observed": {k: v for k, v in obs.items() if k != "analysis"}})
     r = run_nosearch_stop(None)
     ctx.case("nosearch")
     for kname in ("stop_before_any_search", "stop_after_isready", "stop_after_finished_search", "immediate_stop_honoured"):
@@ -1899,6 +1972,37 @@ def parse_search(line):
     return out
 
 
+def promo_capture_family(rng, n):
+    """sparse legal positions in which a pawn can capture a queen or rook onto the last rank (often both sides)"""
+    out = ["1q6/P7/1K6/8/7k/8/4p3/3Q4 w - - 0 1", "3q4/4P3/8/7K/8/1k6/p7/1Q6 b - - 0 1"]
+    for _ in range(n * 3):
+        b = [["." for _ in range(8)] for _ in range(8)]
+
+        def put(c, r, f):
+            if 0 <= r < 8 and 0 <= f < 8 and b[r][f] == ".":
+                b[r][f] = c
+                return True
+            return False
+        f = rng.randint(0, 7)
+        put("P", 6, f)
+        put(rng.choice("qr"), 7, f + rng.choice([-1, 1]))
+        if rng.random() < 0.5:
+            put(rng.choice("qrnb."), 7, f)
+        if rng.random() < 0.7:
+            g = rng.randint(0, 7)
+            put("p", 1, g)
+            put(rng.choice("QR"), 0, g + rng.choice([-1, 1]))
+        for c in rng.choice(["", "Q", "q", "R", "r", "Qq", "Rr", "N", "n", "B", "b", "Qr", "qR"]):
+            put(c, rng.randint(1, 6), rng.randint(0, 7))
+        for k in "Kk":
+            for _t in range(30):
+                if put(k, rng.randint(0, 7), rng.randint(0, 7)):
+                    break
+        out.append(f"{gens.board_to_fen(b)} {rng.choice('wb')} - - 0 1")
+        out.append(gens.mirror_fen(out[-1]))
+    return gens.legal_filter(list(dict.fromkeys(out)))[:n]
+
+
 def value_pool(ctx, n):
     """positions for value comparison with the depth chosen so that the Lean reference stays affordable:
     the engine searches first (fast), one more iteration at a time, and reports its node count per iteration;
@@ -1906,6 +2010,12 @@ def value_pool(ctx, n):
     dense position never costs more than one short search (an engine search that does not finish within the
     per-operation timeout is skipped here as too expensive - hangs are C17/C18's subject, not C04's)"""
     pool = small_pool(ctx, int(n * 1.3), max_men=32)
+    # swings larger than a queen inside quiescence: pawns that capture a heavy piece onto the last rank, for both
+    # sides, with other heavy pieces en prise - where a pruning rule based on "a capture gains at most a queen" fails
+    pc = promo_capture_family(ctx.rng, 30 if ctx.quick else 400)
+    pcc = run_batch(MDRV, [f"sgen\t{f}" for f in pc])
+    pool = [(f, int(kv(r).get("cnt", "0"))) for f, r in zip(pc, pcc) if int(kv(r).get("cnt", "0")) >= 1] + pool   # first: kept by the cut below
+    ctx.bump("promotion_capture_family", len(pc))
     maxd = 3 if ctx.quick else 4
     budget = 9000 if ctx.quick else 60000
     best = {}                      # fen -> (depth, line)
@@ -2656,6 +2766,9 @@ def random_history(rng, fens, allow_go=True):
         elif r < 0.5 and allow_go:
             h.append(("position", f"position {f}"))
             h.append(("go_stop", "go infinite", rng.random() * 0.08))
+            # a GUI may repeat `stop` (time-out race): one or two more after the search has answered
+            for _ in range(rng.choice([0, 1, 1, 2])):
+                h.append(("line", "stop"))
         elif r < 0.6:
             h.append(("line", f"position {f}"))
             h.append(("line", f"perft {rng.randint(1, 2)}"))
@@ -2667,7 +2780,7 @@ def random_history(rng, fens, allow_go=True):
         elif r < 0.9:
             h.append(("line", "isready"))
         else:
-            h.append(("line", rng.choice(["uci", "tostr", "help", "ucinewgame", "tperft 2"])))
+            h.append(("line", rng.choice(["uci", "tostr", "help", "ucinewgame", "tperft 2", "stop", "stop"])))
     return h
 
 
@@ -3126,6 +3239,15 @@ def check_C17(ctx):
     for f, mv in [("7k/P7/8/8/8/8/NNNNNNNN/RNBQKBNR w KQ - 0 1", "a7a8q"), ("rnbqkbnr/nnnnnnnn/8/8/8/8/p7/7K b kq - 0 1", "a2a1q"),
                   ("7k/PPP5/8/8/8/8/2NNNNNN/RNBQKBNR w KQ - 0 1", "a7a8q h8h7 b7b8q h7h6 c7c8q")]:
         scripts.append([(f"position fen {f} moves {mv}", []), ("go depth 2", [])])
+    # very long input lines (the statement quantifies over arbitrary lines; a long game is one `position` line of
+    # five bytes per ply): unknown text, a legal 14 000-ply game, a rejected FEN with a long tail
+    shuffle = " ".join(["g1f3 g8f6 f3g1 f6g8"] * 3500)
+    scripts.append([("x" * 70000, []), ("isready", [])])
+    scripts.append([("position startpos moves " + shuffle, []), ("go depth 2", []), ("isready", [])])
+    scripts.append([("position startpos", []), ("go depth 2 " + "depth 2 " * 20000, []), ("isready", [])])
+    scripts.append([("position fen " + "8/" * 40000, []), ("isready", [])])
+    if not ctx.quick:
+        scripts.append([("setoption name " + "y" * 3000000, []), ("isready", [])])
     # positions at the edge of the capacities that ARE representable: fourteen officers and a pawn about to promote
     for f in ("7k/P7/8/8/8/8/1NNNNNNN/RNBQKBNR w KQ - 0 1", "rnbqkbnr/1nnnnnnn/8/8/8/8/p7/7K b kq - 0 1"):
         scripts.append([(f"position fen {f}", []), ("go depth 3", []), ("perft 2", [])])
